@@ -21,21 +21,6 @@ def _out_dir(pid, tier):
   return d
 
 
-def _module_meta(pid):
-  """Reads LEVEL / RULE / ASSUMPTIONS without importing jax in this process."""
-  # Property modules import fedjax lazily enough?  Not guaranteed -- read them
-  # from a tiny subprocess instead.
-  code = (
-      'from vf import env; env.activate();'
-      'import json, importlib, sys; sys.modules["tensorflow"] = None;'
-      f'm = importlib.import_module("vf.props.{pid.lower()}");'
-      'print("@@META@@" + json.dumps({"level": m.LEVEL, "rule": m.RULE,'
-      '"assumptions": list(m.ASSUMPTIONS),'
-      '"checks": [{"name": c.name, "doc": c.doc, "budget": c.budget,'
-      '"exhaustive": c.cases is not None} for c in m.CHECKS]}))')
-  return code
-
-
 def run(pid, tier, seed, jobs, only=None, scale=1.0, soft_cap=None):
   t0 = time.time()
   out = _out_dir(pid, tier)
@@ -52,8 +37,6 @@ def run(pid, tier, seed, jobs, only=None, scale=1.0, soft_cap=None):
     log = open(os.path.join(out, f'shard_{i}.log'), 'w')
     procs.append((i, subprocess.Popen(cmd, cwd=_env.VERIF_DIR, env=env,
                                       stdout=log, stderr=subprocess.STDOUT), log))
-  meta_p = subprocess.run([PY, '-c', _module_meta(pid)], cwd=_env.VERIF_DIR,
-                          env=env, capture_output=True, text=True)
   hard_cap = {'quick': 45 * 60, 'thorough': 8 * 3600}[tier]
   harness_errors = []
   for i, p, log in procs:
@@ -68,19 +51,15 @@ def run(pid, tier, seed, jobs, only=None, scale=1.0, soft_cap=None):
       with open(os.path.join(out, f'shard_{i}.log')) as f:
         tail = f.read()[-3000:]
       harness_errors.append(f'shard {i}: exit {rc}\n{tail}')
-  meta = None
-  for line in meta_p.stdout.splitlines():
-    if line.startswith('@@META@@'):
-      meta = json.loads(line[len('@@META@@'):])
-  if meta is None:
-    harness_errors.append('module meta: ' + meta_p.stderr[-3000:])
-
   shards = []
   for i in range(jobs):
     path = os.path.join(out, f'shard_{i}.json')
     if os.path.exists(path):
       with open(path) as f:
         shards.append(json.load(f))
+  meta = next((sh['meta'] for sh in shards if sh.get('meta')), None)
+  if meta is None and not harness_errors:
+    harness_errors.append('no shard produced module meta')
   return merge(pid, tier, seed, meta, shards, harness_errors, time.time() - t0)
 
 
